@@ -197,6 +197,14 @@ Definition ok_call (fs : fspec) (c : list positive * list aform) : bool :=
 
 Definition sweep (fs : fspec) : bool := forallb (ok_call fs) (calls fs).
 
+(* ties are never acceptable, whatever algorithm object is passed (within the documented set or not) *)
+Definition noties_call (fs : fspec) (c : list positive * list aform) : bool :=
+  match verdict_of fs c with
+  | Ambiguous => covered known KAmbiguous (fname fs) (map rep_class (dargs (fabs fs) (fst c) (snd c)))
+  | _ => true
+  end.
+Definition sweep_noties (fs : fspec) : bool := forallb (noties_call fs) (calls fs).
+
 Definition vcode (v : verdict) : N := match v with NotFound => 0 | Ambiguous => 1 | Unique i => 2 + N.of_nat i end%N.
 
 (* indices (in `calls fs` order) at which the model's verdict differs from the expected code *)
@@ -286,6 +294,18 @@ Proof.
   - left. now exists i.
   - right. left. split; [reflexivity | exact H].
   - right. right. split; [reflexivity | exact H].
+Qed.
+
+Lemma sweep_noties_sound : forall le_row bear_row rep_class known fs,
+  sweep_noties le_row bear_row rep_class known fs = true ->
+  forall req opt, Forall2 (fun a c => In a c) req (freq fs) -> form_ok opt (fopt fs) ->
+    resolve le_row bear_row (frules fs) (dargs (fabs fs) req opt) = Ambiguous ->
+    covered known KAmbiguous (fname fs) (map rep_class (dargs (fabs fs) req opt)) = true.
+Proof.
+  intros le_row bear_row rep_class known fs H req opt Hr Ho E.
+  unfold sweep_noties in H. rewrite forallb_forall in H.
+  specialize (H (req, opt) (proj2 (in_calls fs req opt) (conj Hr Ho))).
+  unfold noties_call, verdict_of in H. cbn [fst snd] in H. rewrite E in H. exact H.
 Qed.
 
 (* resolution looks at an argument only through its isinstance row and the condition bits: two argument tuples with
